@@ -437,7 +437,7 @@ _TEXT = ("Proved in Lean 4, for EVERY regular expression of the property's subse
          "(induction on r, all contexts and all fuel); (2) C14_total - on EVERY byte string the regex parser answers ok or "
          "error: below the recover of parse_regexp the recursion always continues on a strictly shorter suffix "
          "(parseRaw_ne_fuel, termination of the Go code) and the recover turns every index panic into a ParseError (regex "
-         "half of C08); (3) C14_sem_partial - for every regex of the subset whose repeated bodies cannot match the empty "
+         "half of C08); (3) C14_sem - for every regex of the subset whose repeated bodies cannot match the empty "
          "string (NonNullableBodies; exact counts {m} are exempt) and every text without \\r and \\f, the backtracking "
          "specification Spec.findAll of the translated tree - the one C01 proves the VM implements - reports the same "
          "non-empty spans, in the same order, with the same group texts as the textbook leftmost-first backtracking "
@@ -447,10 +447,10 @@ _TEXT = ("Proved in Lean 4, for EVERY regular expression of the property's subse
          "C01 the VM on the generated code of `find <amount> @/re/` returns the conventional matches under every amount "
          "clause and terminates; C14_regex_total - the conventional semantics never diverges on that domain; "
          "C14_rx_never_panics / C14_front_total - the regex parser model discharges the no-panic assumption of "
-         "C08_parser_total, so the modelled front end (parser + regex sub-parser) is total. PARTIAL in one "
-         "respect: \\D is excluded from (3)/(4) (hypothesis NoNegDigit; full statement kept as C14_sem_statement) because "
-         "`not digit` succeeds without consuming at the end of the text in the engine (defect, fixes/C14-notclass-at-eof); "
-         "the correspondence run covers \\D against Go regexp. Correspondence: generated regexes of the subset (random, "
+         "C08_parser_total, so the modelled front end (parser + regex sub-parser) is total. \\D is included "
+         "since fix f73d71e (before it `not digit` succeeded without consuming at the end of the text and the statement was "
+         "false for it); (4) is stated over the call-free generator genCF, linked to the monadic generator by "
+         "gen_eq_genCF. Correspondence: generated regexes of the subset (random, "
          "depth <= 3, plus all regexes of up to 2 (quick) / 3 (thorough) items over a small alphabet, nested quantified "
          "groups inside alternations and vice versa, lazy forms, classes, anchors, back-references) x short ASCII texts "
          "without \\r/\\f: real Compile+Run of `find all @/re/` against the ARBITER Go regexp (leftmost-first, (?m), "
@@ -461,7 +461,7 @@ _TEXT = ("Proved in Lean 4, for EVERY regular expression of the property's subse
 
 PROPS = {"C14": dict(
     lean_modules=["Vore.Props.C14", "Vore.Props.C14front"],
-    theorems=["Vore.C14_parse", "Vore.C14_parse_from", "Vore.C14_total", "Vore.C14_total_first", "Vore.C14_sem_partial",
+    theorems=["Vore.C14_parse", "Vore.C14_parse_from", "Vore.C14_total", "Vore.C14_total_first", "Vore.C14_sem",
               "Vore.C14_callfree", "Vore.C14_regex_total", "Vore.C14_vm_partial", "Vore.C14_find_command_partial",
               "Vore.C14_rx_never_panics", "Vore.C14_front_total"],
     run=run,
